@@ -29,9 +29,11 @@ prop('C02', technique='contract-based deductive verification: two-implementation
      explanation='Expr.fold / BinaryOp.eval / UnaryOp.eval must compute what the unoptimised code computes at run time (value and type), must not '
                  'fold a run-time failure away and must raise nothing else; every peephole rule window is run on the machine before and after '
                  'the real optimize() and must behave identically and stay assemblable; markers and labels survive; bounded stand-in equiv.bounded: '
-                 'template programs behave the same at -O0/-O1/-O2 (device interactions, way of stopping)',
+                 'template programs behave the same at -O0/-O1/-O2 (device interactions, way of stopping); the remaining rules (read/store, jump after jump, '
+                 'push%/jz, instruction after halt) each have a semantic lemma on the real _exec_* functions, and a frame obligation over every canonical op: '
+                 'optimize() rewrites no two- or three-instruction window other than those a lemma covers',
      assumptions=['windows are checked after 0-2 unrelated instructions; operands outside -2..2 symbolic, -2..2 enumerated'],
-     not_covered=['CONST substitution by tree cloning', 'read/store pair elimination and jump rules only for marker preservation, not semantics',
+     not_covered=['CONST substitution by tree cloning', 'window frame: operands of the representative instructions are concrete (the operand-dependent rules are proved for all operand values separately); windows of ill-typed code (push$ ; neg) are outside the precondition',
                   'the push/push/div window on two INTEGER or LONG literals (binary64 quotient): not decidable with uninterpreted float '
                   'division (false alarm) nor, within 15 minutes per case, with bit-precise division - contract retired',
                   'static array bounds vs run-time bounds',
@@ -53,12 +55,13 @@ prop('C04', technique='contract-based deductive verification: loop invariants ov
      explanation='layout arithmetic (memlayout), array addressing/initialisation, reads of unset cells, stores, references and '
                  'call frames proved against prefix-sum / row-major specifications for all values; disjointness as lemmas over the ensures',
      assumptions=['identifiers cannot contain "_" (grammar), so STATIC names _static_<routine>_<name> cannot collide'],
-     not_covered=['record-typed parameters (frame slot vs. layout size)', 'generator side of argument passing is under C01/C03',
+     not_covered=['generator side of argument passing is under C01/C03', 'record parameters end to end only in the bounded stand-in (misc[record_param*]); the layout side (a parameter is one cell) is proved',
                   'array rank > 3 and record arity > 4 in get_type_size'])
 prop('C15', technique='contract-based deductive verification: loop refinement of the DATA tokeniser against a specification fold '
                       '(string VCs, z3 seq), generator/cursor contracts over enumerated placements with symbolic item texts',
      explanation='parse_data proved equal to the specification fold for every text (step + epilogue refinement under an inductive '
-                 'invariant); grouping of DATA by labels, RESTORE part index and the READ cursor proved against the placement spec',
+                 'invariant); grouping of DATA by labels, RESTORE part index and the READ cursor proved against the placement spec (nodes dispatched through '
+                 'the pass\'s own handler look-up, procedures between DATA statements included; frame: only the label handlers store to the current label)',
      assumptions=['DATA text is printable ASCII + TAB (one source line)',
                   'pyparsing hands the text after DATA to DataStmt unchanged'],
      not_covered=['which texts count as numbers is CPython int()/float() (assumed contract), not the QBASIC numeral syntax', 'event sequences longer than 4'])
@@ -128,7 +131,7 @@ prop('C12', technique='contract-based deductive verification of the stopping pre
                   'step/next (need termination of the stepped fragment) — not decidable per call', 'do_step / do_next themselves'])
 prop('C13', technique='contract-based deductive verification of the evaluator addressing (layout contracts) and frame conditions; arrays bounded',
      explanation='eval_var resolves names through the layout functions of C04 (global first, then the routine of the frame); scalar, by-reference, record '
-                 'reads return the cell contents and write nothing; unknown / unassigned names are EvalError; arrays against the address function of arridx',
+                 'reads return the cell contents and write nothing (nested records: the nested call by contract, cell sizes ghost); unknown / unassigned names are EvalError; arrays against the address function of arridx',
      assumptions=['expression text parsing (pyparsing)', 'operators are evaluated by BinaryOp.eval / UnaryOp.eval, proved equivalent to the machine under C02'],
      not_covered=['type resolution of names inside procedures (Lvalue.base_type through the main routine)', 'arrays beyond the bounded shapes',
                   '__str__ renderings'])
